@@ -849,6 +849,64 @@ def m_log2(eng, x):
     return SymFloat(real=y)
 
 
+LOGB_TABLE = {}
+
+
+def _logb_thresholds(base, k):
+    """for n in [base^k, base^(k+1)): (A, C) with  math.log(n, base) < k  iff n <= A  and  math.log(n, base) >= k + 1
+    iff n >= C - by bisection on the running interpreter (the quotient log(n)/log(base) assumed monotone on integers)"""
+    hit = LOGB_TABLE.get((base, k))
+    if hit is not None:
+        return hit
+    lo, hi = base ** k, base ** (k + 1) - 1
+
+    def first(pred):
+        a, b = lo, hi + 1
+        while a < b:
+            m = (a + b) // 2
+            if pred(m):
+                b = m
+            else:
+                a = m + 1
+        return a
+    A = first(lambda n: math.log(n, base) >= k) - 1
+    C = first(lambda n: math.log(n, base) >= k + 1)
+    LOGB_TABLE[(base, k)] = (A, C)
+    return A, C
+
+
+def m_log(eng, x, base=None):
+    """math.log(x, base) of a positive symbolic int below 2^53 with a concrete integer base >= 2: the path forks on the
+    exact integer logarithm k; within it the result is a real y, k - 1 < y < k + 2, whose position relative to k and
+    k + 1 is fixed by integer thresholds taken from the running interpreter (the float quotient can land just below k at
+    an exact power); nothing else about y is assumed - enough for int() / floor() of it"""
+    if isinstance(x, SymFloat) and x.ival is not None:
+        x = x.ival
+    if not deep_sym(x) and not deep_sym(base):
+        return math.log(x) if base is None else math.log(x, base)
+    if is_sym(base):
+        base = eng.concretize_int(base, "log base")
+    if not isinstance(x, (SymInt, SymBV)) or not isinstance(base, int) or isinstance(base, bool) or base < 2:
+        raise Unsupported("log on symbolic value is not encodable")
+    if isinstance(x, SymBV):
+        x = mkint(zint(x))
+    if eng.truth(eng.cmp("LtE", x, 0)):
+        raise ValueError("math domain error")
+    k = 0
+    while eng.truth(eng.cmp("GtE", x, base ** (k + 1))):
+        k += 1
+        if base ** (k + 1) > 2 ** 53:
+            if eng.truth(eng.cmp("GtE", x, 2 ** 53)):
+                raise Unsupported("log of an int that may exceed 2^53")
+            break
+    A, C = _logb_thresholds(base, k)
+    y = z3.Real("_logb_%d" % eng.fresh_id())
+    eng.real_mode = True
+    eng.add_fact(z3.And(y > k - 1, y < k + 2, (y < k) == (x.t <= A), (y >= k + 1) == (x.t >= C)))
+    eng.set_bounds(y, k - 1, k + 2)
+    return SymFloat(real=y)
+
+
 def m_unmodelled(name):
     def f(eng, *a, **k):
         if any(deep_sym(x) for x in a):
@@ -1231,7 +1289,8 @@ def install(eng):
     M[math.isnan] = _fp_pred("isnan", z3.fpIsNaN, False)
     M[math.isinf] = _fp_pred("isinf", z3.fpIsInf, False)
     M[math.isfinite] = _fp_pred("isfinite", lambda t: z3.Not(z3.Or(z3.fpIsNaN(t), z3.fpIsInf(t))), True)
-    for name in ("log", "log10", "pow", "sqrt", "exp", "modf", "copysign", "fabs"):
+    M[math.log] = m_log
+    for name in ("log10", "pow", "sqrt", "exp", "modf", "copysign", "fabs"):
         M[getattr(math, name)] = m_unmodelled(name)
     from . import symre, dtmodels
     symre.install(eng)
